@@ -16,8 +16,8 @@ AI, PZ = "py7zr.archiveinfo", "py7zr.py7zr"
 NAMES = ["a.txt", "dir", "dir/b.bin", "c", "dir/sub/e", "f.dat", "g"]
 
 
-def mk_engine(unroll=2, unwind="assume", modules=()):
-    eng = Engine([AI, PZ, "py7zr.helpers", "py7zr.io"] + list(modules), intmode="int", unroll=40, unwind="assert")
+def mk_engine(unroll=2, unwind="assume", modules=(), intmode="int"):
+    eng = Engine([AI, PZ, "py7zr.helpers", "py7zr.io"] + list(modules), intmode=intmode, unroll=40, unwind="assert")
     # the decode loop of Worker.decompress is the only loop bounded by assumption (<= unroll decoder calls per member)
     eng.loop_limits[(PZ, "Worker.decompress")] = (unroll, unwind)
     tokens.install(eng, [(AI, "write_uint64", "read_uint64")])
